@@ -41,11 +41,16 @@ def bool_eval(e, env):
     raise NotBitwise("node %s is not a bitwise term over the four inputs" % (k,))
 
 
-def result_fields(b):
+def result_fields(b, single_path=True):
     """(data expr, init expr) of the Word aggregate returned by a body with a single return aggregate"""
     aggs = [(bi, s) for bi, si, s in b.stmts() if s["k"] == "assign" and s["rv"]["k"] == "agg" and s["rv"].get("adt") == "sim::mem::Word" and s["p"]["l"] == 0]
     if len(aggs) != 1:
         raise NotBitwise("%d Word aggregates assigned to the return place" % len(aggs))
+    # every other way of producing the result (an early `return self`, a call) is a return path the truth table does not cover
+    others = [(bi2, si2) for bi2, si2, rv in b.defs().get(0, []) if not (si2 != "term" and rv.get("k") == "agg")]
+    others += [(bi2, "partial") for bi2, si2, st in b.defs().get(("partial", 0), [])]
+    if others and single_path:
+        raise NotBitwise("the result is also produced on %d other path(s) (blocks %s): a shortcut return bypasses the init-mask formula" % (len(others), [o[0] for o in others]))
     bi, s = aggs[0]
     d = dict(zip(s["rv"]["field_names"], s["rv"]["fields"]))
     return bi, b.expr_of_operand(d["data"], 16), b.expr_of_operand(d["init"], 16)
@@ -119,7 +124,7 @@ def run(ck, ctx):
             continue
         where = "src/sim/mem.rs:%s" % b.line
         try:
-            bi, de, ie = result_fields(b)
+            bi, de, ie = result_fields(b, single_path=False)
         except NotBitwise as ex:
             ck.fail("C15.3", op, "unanalysable: %s" % ex, where)
             continue
